@@ -280,6 +280,26 @@ class NeedSplit(Undecided):
 
 
 _NOLIB = object()
+
+
+def _has_payload(text: str) -> bool:
+    """Text that carries opaque payload atoms (private-use characters placed by the document encoding)."""
+    return any("\ue000" <= ch <= "\uf8ff" for ch in text)
+
+
+
+def _own_yield(fnode) -> bool:
+    """True if the function itself (not a nested def / lambda / class) contains yield."""
+    todo = list(fnode.body) if not isinstance(fnode, ast.Lambda) else []
+    while todo:
+        n = todo.pop()
+        if isinstance(n, (ast.Yield, ast.YieldFrom)):
+            return True
+        if isinstance(n, (ast.FunctionDef, ast.AsyncFunctionDef, ast.Lambda, ast.ClassDef)):
+            continue
+        todo.extend(ast.iter_child_nodes(n))
+    return False
+
 _PURE_STR_METHODS = {
     "capitalize", "casefold", "center", "count", "endswith", "expandtabs", "find", "index", "isalnum", "isalpha", "isascii", "isdecimal", "isdigit",
     "isidentifier", "islower", "isnumeric", "isprintable", "isspace", "istitle", "isupper", "ljust", "lower", "lstrip", "partition", "removeprefix",
@@ -730,6 +750,8 @@ class Interp:
             return any(self.equal(x, item, node) for x in container.items)
         if isinstance(container, DictVal):
             return any(self.equal(k, item, node) for k in container.d)
+        if isinstance(container, str) and isinstance(item, str) and _has_payload(container):
+            self.__dict__.setdefault("scan_log", []).append(("in", item, (self.__dict__.get("frames") or ["?"])[-1]))
         if isinstance(container, str) and isinstance(item, str):
             return item in container
         if isinstance(container, Str) or isinstance(item, Str):
@@ -793,7 +815,7 @@ class Interp:
                     else:
                         raise PyRaise("TypeError")
             self.trace_calls.append(fn.short)
-            is_gen = any(isinstance(n, (ast.Yield, ast.YieldFrom)) for n in ast.walk(node))
+            is_gen = _own_yield(node)
             if is_gen:
                 out = Lst([])
                 env["__yield__"] = out
@@ -819,18 +841,50 @@ class Interp:
             # lambda / nested def
             n = f.node
             env = dict(f.env)
-            params = [x.arg for x in n.args.args]
+            a = n.args
+            params = [x.arg for x in list(getattr(a, "posonlyargs", [])) + list(a.args)]
+            kwonly = [x.arg for x in a.kwonlyargs]
+            bound = set()
+            extra = []
             for i, v in enumerate(args):
-                env[params[i]] = v
+                if i < len(params):
+                    env[params[i]] = v
+                    bound.add(params[i])
+                elif a.vararg is not None:
+                    extra.append(v)
+                else:
+                    raise PyRaise("TypeError")
+            if a.vararg is not None:
+                env[a.vararg.arg] = Tup(extra)
+            extra_kw = {}
             for k, v in kwargs.items():
-                env[k] = v
-            defaults = n.args.defaults
+                if k in params or k in kwonly:
+                    if k in bound:
+                        raise PyRaise("TypeError")
+                    env[k] = v
+                    bound.add(k)
+                elif a.kwarg is not None:
+                    extra_kw[k] = v
+                else:
+                    raise PyRaise("TypeError")
+            if a.kwarg is not None:
+                dv = DictVal()
+                dv.d = extra_kw
+                env[a.kwarg.arg] = dv
+            defaults = a.defaults
             for p, d in zip(params[len(params) - len(defaults):], defaults):
-                if p not in env or (p in f.env and p not in kwargs and params.index(p) >= len(args)):
+                if p not in bound:
                     env[p] = self.eval(d, f.env)
+                    bound.add(p)
+            for p, d in zip(kwonly, a.kw_defaults):
+                if p not in bound and d is not None:
+                    env[p] = self.eval(d, f.env)
+                    bound.add(p)
+            if any(p not in bound for p in params + kwonly):
+                raise PyRaise("TypeError")
             if isinstance(n, ast.Lambda):
                 return self.eval(n.body, env)
-            if any(isinstance(x, (ast.Yield, ast.YieldFrom)) for x in ast.walk(n)):
+            if _own_yield(n):
                 out = Lst([])
                 env["__yield__"] = out
                 try:
@@ -1666,6 +1720,10 @@ class Interp:
         env["__yield__"].items.append(self.eval(e.value, env) if e.value is not None else None)
         return None
 
+    def e_YieldFrom(self, e, env):
+        env["__yield__"].items.extend(self.iterate(self.eval(e.value, env)))
+        return None
+
     # ---- builtins --------------------------------------------------------------
     def call_builtin(self, b: Builtin, args, kwargs, node=None):
         n = b.name
@@ -1971,8 +2029,18 @@ class Interp:
             return IterVal(out)
         if n == "itertools.repeat":
             if len(args) < 2:
-                raise Undecided("unbounded itertools.repeat")
+                def forever(v=args[0]):
+                    while True:
+                        yield v
+                return IterVal(forever())  # only meaningful under zip / islice, which stop at the shorter input
             return IterVal([args[0]] * self.index(args[1]))
+        if n == "itertools.filterfalse":
+            return IterVal(x for x in it(args[1]) if not self.truth(x if args[0] is None else self.call_value(args[0], [x], {})))
+        if n == "itertools.compress":
+            return IterVal(x for x, k in zip(it(args[0]), it(args[1])) if self.truth(k))
+        if n == "itertools.tee":
+            xs = it(args[0])
+            return Tup([IterVal(list(xs)) for _ in range(self.index(args[1]) if len(args) > 1 else 2)])
         if n == "itertools.groupby":
             key = args[1] if len(args) > 1 else kwargs.get("key")
             groups = []
@@ -2186,7 +2254,7 @@ class Interp:
         if not isinstance(text, str):
             raise Undecided("regular expression on symbolic text")
         log = self.__dict__.setdefault("regex_log", [])
-        log.append((self.__dict__.get("frames", ["?"])[-1] if self.__dict__.get("frames") else "?", func, pat, flags, text))
+        log.append((self.__dict__.get("frames", ["?"])[-1] if self.__dict__.get("frames") else "?", func, pat, flags, text, as_int(a.get("maxsplit")) if func == "split" else 0))
         try:
             rx = _re.compile(pat, flags)
         except _re.error:
@@ -2422,6 +2490,8 @@ class Interp:
                     return tuple(a.items)
                 return a
             cargs = [conc(a) for a in args]
+            if m in ("index", "find", "rfind", "rindex", "count", "split", "rsplit", "partition", "rpartition") and cargs and isinstance(cargs[0], str) and _has_payload(recv):
+                self.__dict__.setdefault("scan_log", []).append((m, cargs[0], (self.__dict__.get("frames") or ["?"])[-1]))
             if m in _PURE_STR_METHODS and all(isinstance(a, (str, int, tuple)) or a is None for a in cargs) and not kwargs:
                 try:
                     r = getattr(recv, m)(*cargs)
